@@ -256,6 +256,9 @@ type Step struct {
 // (HistCase.GNMI: "" or the encoding of a real gNMI target that receives every change next to the recording device)
 type HistCase struct {
 	GNMI string `json:"gnmi,omitempty"`
+	// Loop (with GNMI): closed loop - the real gnmiTarget also runs its on-change sync against the gNMI device, the
+	// running store is what the real sync loop makes of the device's reports
+	Loop bool `json:"loop,omitempty"`
 	Universe string    `json:"universe"`
 	Palette  []string  `json:"palette"`
 	Initial  []LeafSel `json:"initial,omitempty"`
@@ -1189,6 +1192,32 @@ func (h *HistEnv) ApplyDrift(st Step) []string {
 		panic(err)
 	}
 	return gone
+}
+
+// ReapplyAll re-submits every live intent verbatim in one transaction and confirms it.
+func (h *HistEnv) ReapplyAll(txid string) (*sdcpb.TransactionSetResponse, error) {
+	var names []string
+	for n := range h.Model.Intents {
+		names = append(names, n)
+	}
+	sort.Strings(names)
+	var reqs []*sdcpb.TransactionIntent
+	for _, n := range names {
+		r, err := BuildIntentRequest(h.Model.Intents[n].Req)
+		if err != nil {
+			return nil, fmt.Errorf("harness: %w", err)
+		}
+		reqs = append(reqs, r)
+	}
+	rsp, err := h.SetRequest(txid, reqs, nil, false)
+	if err != nil {
+		return nil, err
+	}
+	if ie := IntentErrorsOf(rsp); len(ie) > 0 {
+		h.FreeSlot(txid)
+		return rsp, fmt.Errorf("intent errors: %v", ie)
+	}
+	return rsp, h.DS.TransactionConfirm(h.Ctx, txid)
 }
 
 // RunStep resolves, submits and (on success) confirms one step and updates the model.
